@@ -54,7 +54,7 @@ CLAIMS = {
         note=NOTE_COMMON + " PARTIAL where the property is false (known findings F4, F5, F6b, F21, F22: commands outside Tame2) and for GoodGroup2 being sufficient, not exact, beyond two same-time options. Reading of -eM/-ema after a join per DESIGN §9."),
     "C09": dict(
         category="proof", design_ref="§7 C09",
-        technique="Lean 4 theorems over a hand-written model of ms.py's option records, printer and argparse layer (print/parse round trip for every option kind relative to an explicit number-codec hypothesis); composed round-trip refinement theorem ms_roundtrip_sem_tame (C07's to_ms refinement + C08's from_ms refinement, bridged between the two interpreters) for constant-size graphs + differential correspondence and semantic round-trip comparison through an independent ms interpreter",
+        technique="Lean 4 theorems over a hand-written model of ms.py's option records, printer and argparse layer (print/parse round trip for every option kind relative to an explicit number-codec hypothesis); composed round-trip refinement theorems ms_roundtrip_sem_all / ms_roundtrip_growth_sem_all / ms_roundtrip_names (C07's to_ms refinement + C08's from_ms refinement, bridged between the two interpreters; acceptance by from_ms proved; exponential epochs exact relative to the printed rates, with a real-analysis error bound) + differential correspondence and semantic round-trip comparison through an independent ms interpreter",
         text=("Second sentence of the property (option strings): kernel-checked theorems print_parse_option_partial (EVERY option record with valid parameters — -G/-eG, -g/-eg, -eN, "
               "-n/-en, -eM, -m/-em, -ema, -es, -ej — prints to a string that the Model of the library's own argparse layer parses back to exactly one option of the same kind, in the "
               "right list, with the same indices and values: exactly for non-negative numbers, within 5e-11 for negative ones printed in fixed point), print_parse_option_exact, "
@@ -75,10 +75,16 @@ CLAIMS = {
               "ms_roundtrip_names_order_partial; placeholder names like deme2 in the original graph are harmless), the counterexamples showing each hypothesis is needed "
               "(ms_roundtrip_acceptance_counterexample = ms_roundtrip_pulse1_counterexample: known finding F6; toMs_tame_needs_pulse_order, toMs_tame_needs_pulse_below_one), "
               "ms_roundtrip_accepts_order_not_necessary (the pulse-order clause of PulsesTame comes from the method: a chain A->B, B->C at one time is accepted), "
-              "ingress_tolerance_witness. Epochs with exponential growth (printing "
-              "-ln(r)/dt as a decimal needs real analysis and float rounding) are NOT covered by the theorem: they are checked by the differential — Model of to_ms/from_ms = code exactly "
+              "ingress_tolerance_witness. Epochs with exponential growth: toMs_msSem_bridge_growth, ms_roundtrip_growth_accepts, ms_roundtrip_growth_sem_all (EVERY valid ms-expressible graph with "
+              "PulsesTame pulses and any growth printer that prints 0 as 0 and equal rates alike: from_ms accepts to_ms's output and the result is EXACTLY the graph with every growth "
+              "rate replaced by its printed value (regrow) — populations, lifetimes, migrations, movements exact, sizes exact wherever they do not depend on a printed rate: "
+              "SemRefinesUpToGrowth, regrow_exact_at), and in real numbers (Theorems/C09Real.lean, Mathlib Real.exp) ms_roundtrip_growth_real: if the printed rate is within eps of the "
+              "true one, the round-tripped size at time t lies within the factor exp(eps/(4N0) * (t - runStart)) of the original, runStart the last time -en set the size exactly "
+              "('up to the precision of the printed numbers', quantified). growth_roundtrip_sizes_counterexample / _boundaries_: exactness of sizes is FALSE with growth (a constant "
+              "epoch older than an exponential one inherits size*exp(-a'*dt): 300.0000000245671 on the real library; two rates printed alike merge two epochs) — within the "
+              "property's precision clause. Float rounding of the printed rate itself stays an explicit eps. Also checked by the differential — Model of to_ms/from_ms = code exactly "
               "(0 disagreements on thousands of graphs per run) and the independent interpreter Spec.MsSem agrees with the graph's demography on every round trip."),
-        note=NOTE_COMMON + " PARTIAL: for exponential epochs (and pulses outside PulsesTame) the semantic round trip rests on correspondence + the Spec interpreter, not on a theorem. Number printing (str(float), format '.10f') is an explicit hypothesis; sizes/growth from math.exp/log are carried symbolically and compared at 1e-9."),
+        note=NOTE_COMMON + " PARTIAL: for pulses outside PulsesTame (F6 and same-time pulse chains) the semantic round trip rests on correspondence + the Spec interpreter, not on a theorem. Number printing (str(float), format '.10f') is an explicit hypothesis; sizes/growth from math.exp/log are carried symbolically and compared at 1e-9."),
     "C04": dict(
         category="proof", design_ref="§7 C04",
         technique="Lean 4 composition theorems for the dump/load pipelines relative to explicit codec laws (hypotheses, tested on the installed ruamel.yaml/json) built on resolve_asdict, simplify_resolves and the C16 lemmas + end-to-end round-trip testing on the real text layer",
